@@ -463,7 +463,10 @@ func (ec *exchClient) run(c *exchCase, timeoutMs int) []Ev {
 			if err == error(&modbus.ErrClientNotConnected) {
 				ret["notConnected"] = 1
 			}
-			if strings.Contains(err.Error(), "total read timeout exceeded") {
+			// "the call ended by the total read timeout": by what the error says, or - should the wording change - by
+			// how long a client error took (at least 90 % of the configured total timeout)
+			if strings.Contains(strings.ToLower(err.Error()), "timeout") ||
+				(ret["isClientError"] == 1 && timeoutMs > 0 && ret["ms"].(int)*10 >= timeoutMs*9) {
 				ret["timeoutMsg"] = 1
 			}
 			if errors.Is(err, packet.ErrInvalidCRC) {
